@@ -366,7 +366,8 @@ def gen_case(rng, verb=None):
     tail = []
     if verb == "framer":
         head = ["framer", name]
-        pool = {"at": [r.choice(["0.5", "1", "0", "-2", "0x10", "1e1", "nan", "inf", "2.5e-1", "1j", "2+1j"])],
+        pool = {"at": [r.choice(["0.5", "1", "0", "-2", "0x10", "1e1", "nan", "inf", "2.5e-1", "1j", "2+1j", "7" * 330, "-" + "7" * 330,
+                                  str(2 ** 1024 - 2 ** 970), str(2 ** 1024 - 2 ** 970 - 1)])],
                 "be": [r.choice(["active", "inactive", "aux", "slave", "moot"])],
                 "in": [r.choice(["front", "mid", "back"])],
                 "first": [r.choice(NAMES)],
@@ -401,13 +402,13 @@ def gen_case(rng, verb=None):
                 "on": [r.choice(["update", "never", "Always", "change", "streak", "deck", "sometimes"])]}
     elif verb == "logger":
         head = ["logger", name]
-        pool = {"at": [r.choice(["0.5", "-1", "2", "1j", "x"])], "to": [r.choice(["/dev/shm/verif-log", "./logs"])],
+        pool = {"at": [r.choice(["0.5", "-1", "2", "1j", "x", "7" * 330, str(-(2 ** 1024 - 2 ** 970))])], "to": [r.choice(["/dev/shm/verif-log", "./logs"])],
                 "be": [r.choice(["active", "inactive", "slave", "aux"])], "in": [r.choice(["front", "mid", "back", "top"])],
                 "flush": [r.choice(["0.5", "10", "-3"])], "keep": [r.choice(["3", "2.7", "-1", "0x10", "x", "nan", "inf", "1j"])],
                 "cycle": [r.choice(["60", "0", "-5.5"])], "size": [r.choice(["100", "0", "-4", "2.5"])], "reuse": []}
     elif verb == "server":
         head = ["server", name]
-        pool = {"at": [r.choice(["0.5", "-1", "2"])], "to": [r.choice(["/dev/shm/verif-srv", "./srv"])],
+        pool = {"at": [r.choice(["0.5", "-1", "2", "7" * 330, "0x" + "f" * 300])], "to": [r.choice(["/dev/shm/verif-srv", "./srv"])],
                 "be": [r.choice(["active", "inactive", "slave"])], "in": [r.choice(["front", "mid", "back"])],
                 "rx": [r.choice([":5000", "localhost:5001", "host", ":", "a:b:c"])], "tx": [r.choice([":6000", "peer:6001", "peer", ":x"])],
                 "per": gen_direct(r), "for": r.choice([[], ["a", "in"], ["a", "b", "in"]]) + [".srv.src"]}
